@@ -7,6 +7,7 @@
 #![allow(static_mut_refs)]
 #![allow(clippy::missing_safety_doc)]
 
+mod stdworld;
 mod track;
 
 use cactusref::verif::{self, Event};
@@ -96,6 +97,57 @@ impl Drop for WH {
         }
         lib(|| unsafe { ManuallyDrop::drop(&mut self.h) });
     }
+}
+
+impl PartialEq for Node {
+    fn eq(&self, o: &Self) -> bool {
+        self.id == o.id
+    }
+}
+impl Eq for Node {}
+impl PartialOrd for Node {
+    fn partial_cmp(&self, o: &Self) -> Option<std::cmp::Ordering> {
+        Some(self.cmp(o))
+    }
+}
+impl Ord for Node {
+    fn cmp(&self, o: &Self) -> std::cmp::Ordering {
+        self.id.cmp(&o.id)
+    }
+}
+impl std::hash::Hash for Node {
+    fn hash<H: std::hash::Hasher>(&self, h: &mut H) {
+        self.id.hash(h)
+    }
+}
+impl std::fmt::Debug for Node {
+    fn fmt(&self, f: &mut std::fmt::Formatter<'_>) -> std::fmt::Result {
+        write!(f, "Node#{}", self.id)
+    }
+}
+impl std::fmt::Display for Node {
+    fn fmt(&self, f: &mut std::fmt::Formatter<'_>) -> std::fmt::Result {
+        write!(f, "node {}", self.id)
+    }
+}
+
+/// same digest as `stdworld::SWorld::misc_digest`, computed with cactusref's implementations
+fn misc_digest(w: &World) -> String {
+    use std::hash::{Hash, Hasher};
+    let mut s = String::new();
+    let hs: Vec<&Rc<Node>> = w.roots.iter().flat_map(|v| v.iter()).collect();
+    for (i, x) in hs.iter().enumerate() {
+        let mut hh = std::collections::hash_map::DefaultHasher::new();
+        x.hash(&mut hh);
+        let _ = write!(s, "{}|{:?}|{:x};", x, x, hh.finish());
+        for y in hs.iter().skip(i) {
+            let _ = write!(s, "{}{}{}{:?},", Rc::ptr_eq(x, y) as u8, (x == y) as u8, (x < y) as u8, x.cmp(y));
+        }
+    }
+    let wk: Weak<Node> = Weak::new();
+    let w2 = wk.clone();
+    let _ = write!(s, "W{}{}{}{:?}", wk.upgrade().is_none() as u8, wk.strong_count(), w2.weak_count(), wk);
+    s
 }
 
 impl Clone for Node {
@@ -224,6 +276,9 @@ struct World {
     detached: Vec<Option<Node>>,
     nclones: u32,
     clone_id: u32,
+    sworld: stdworld::SWorld,
+    std_on: bool,
+    stdrep: String,
     order: Vec<u32>, // ids in the order the collector marked them (table iteration order)
     real_abort: bool, // child mode: really perform calls that abort the process
     aborted: bool,
@@ -340,6 +395,8 @@ fn reset_world(w: &mut World) {
     for v in std::mem::take(&mut w.detached) {
         std::mem::forget(v);
     }
+    w.sworld.reset();
+    w.std_on = std::env::var("HARNESS_STD").map(|v| v == "1").unwrap_or(false);
     w.raws.clear();
     w.raws.push(Vec::new());
     w.detached.push(None);
@@ -527,7 +584,7 @@ fn line_ret(w: &mut World, op: &Op, ret: &str, panicked: bool, seen: &str) {
     let mut s = std::mem::take(&mut w.out);
     let _ = write!(
         s,
-        "{{\"k\":\"ret\",\"op\":\"{}\",\"a\":{},\"b\":{},\"d\":{{\"op\":\"{}\",\"x\":{},\"y\":{}}},\"ret\":\"{}\",\"panic\":{},\"depth\":{},\"cnt\":{{\"ntrace\":{},\"npop\":{},\"nvisit\":{},\"nmember\":{},\"nalloc\":{},\"maxdepth\":{},\"ntrace1\":{},\"nalloc1\":{},\"nclones\":{},\"order\":{:?}}},\"seen\":{},\"obs\":",
+        "{{\"k\":\"ret\",\"op\":\"{}\",\"a\":{},\"b\":{},\"d\":{{\"op\":\"{}\",\"x\":{},\"y\":{}}},\"ret\":\"{}\",\"panic\":{},\"depth\":{},\"cnt\":{{\"ntrace\":{},\"npop\":{},\"nvisit\":{},\"nmember\":{},\"nalloc\":{},\"maxdepth\":{},\"ntrace1\":{},\"nalloc1\":{},\"nclones\":{},\"order\":{:?}}},\"stdon\":{},\"std\":{},\"seen\":{},\"obs\":",
         op.op,
         op.a,
         op.b,
@@ -547,6 +604,8 @@ fn line_ret(w: &mut World, op: &Op, ret: &str, panicked: bool, seen: &str) {
         unsafe { track::ALLOCS_TOP },
         w.nclones,
         w.order,
+        !w.stdrep.is_empty() && w.depth == 0,
+        if w.stdrep.is_empty() || w.depth != 0 { "{\"ret\":\"-\",\"dlog\":[],\"seen\":[],\"clones\":0}" } else { w.stdrep.as_str() },
         seen
     );
     obs_json(w, &mut s);
@@ -683,7 +742,14 @@ fn exec(w: &mut World, op: &Op, in_dtor_of: Option<&Node>, dry: bool) -> Option<
             let id = w.objs.len() as u32;
             pad_layout(w);
             let n = Node { id, canary: MAGIC ^ id as u64, strong: RefCell::new(Vec::new()), weak: RefCell::new(Vec::new()) };
-            let h = lib(|| Rc::new(n));
+            let h: Rc<Node> = match op.d.op.as_str() {
+                "box" => {
+                    let bx = Box::new(n);
+                    lib(|| Rc::from(bx))
+                }
+                "from" => lib(|| Rc::from(n)),
+                _ => lib(|| Rc::new(n)),
+            };
             let addr = verif::rcbox_addr(&h);
             unsafe {
                 if let Some(sl) = track::slot_of(addr) {
@@ -1083,6 +1149,12 @@ fn exec(w: &mut World, op: &Op, in_dtor_of: Option<&Node>, dry: bool) -> Option<
             lib(|| unsafe { Rc::decrement_strong_count(p) });
             Some("unit".into())
         }
+        "Misc" => {
+            go!();
+            let mine = misc_digest(w);
+            let theirs = w.sworld.misc_digest();
+            Some(if !w.std_on || mine == theirs { "same" } else { "differ" }.into())
+        }
         "DropDetached" => {
             if !made(w, a) || w.detached[a as usize].is_none() {
                 return None;
@@ -1181,6 +1253,15 @@ fn top_call(w: &mut World, op: &Op) {
     if ret == "abort" {
         w.aborted = true;
     }
+    w.stdrep = if w.std_on && !panicked && ret != "abort" && ret != "uaf" {
+        let r = w.sworld.exec(&op.op, op.a, op.b, &op.d.op);
+        match r {
+            Some(r) => w.sworld.report(&r),
+            None => String::new(),
+        }
+    } else {
+        String::new()
+    };
     let seen = if w.ub.is_empty() && !w.quiet && !w.aborted { seen_json(w) } else { "[]".to_string() };
     line_ret(w, op, &ret, panicked, &seen);
 }
@@ -1345,24 +1426,33 @@ fn drive_script(rng: &mut SmallRng, len: usize, nobj: u32, profile: &str, script
     let strict = profile != "stale" && profile != "elide";
     let strict_adopt = profile != "stale";
     let weak = profile != "core" && profile != "stale";
-    let consume = profile == "consume";
+    let consume = profile == "consume" || profile == "std";
+    let stdp = profile == "std";
     let mut scripted = 0u32;
     let cons: &[&str] = &["TryUnwrap", "GetMut", "MakeMut", "MakeMut", "IntoRaw", "FromRaw", "IncStrong", "DecStrong", "DropDetached", "TryUnwrap"];
     let mut done: Vec<Op> = Vec::new();
     let order = profile == "order";
-    let build: &[&str] = if order {
-        &["New", "New", "CloneRoot", "CloneRoot", "AdoptStore", "AdoptStore", "AdoptStore"]
+    let build: &[&str] = if stdp {
+        &["New", "New", "CloneRoot", "CloneRoot", "Store", "Store", "Store", "CloneStored", "Downgrade", "StoreWeak", "Misc"]
+    } else if order {
+        &["New", "New", "CloneRoot", "CloneRoot", "AdoptStore", "AdoptStore", "AdoptStore", "AdoptSame"]
     } else {
         &["New", "New", "CloneRoot", "CloneRoot", "AdoptStore", "AdoptStore", "AdoptStore", "Store", "CloneStored", "Adopt", "AdoptSame"]
     };
-    let mix: &[&str] = if order {
-        &["CloneRoot", "DropRoot", "DropRoot", "AdoptStore", "AdoptStore", "TakeUnadopt", "New", "Downgrade", "Upgrade"]
+    let mix: &[&str] = if stdp {
+        &["CloneRoot", "CloneStored", "DropRoot", "DropRoot", "Store", "Take", "DropStored", "New", "Downgrade", "Upgrade", "UpgradeStored",
+        "WeakClone", "WeakDrop", "StoreWeak", "TakeWeak", "Misc"]
+    } else if order {
+        &["CloneRoot", "DropRoot", "DropRoot", "AdoptStore", "AdoptStore", "TakeUnadopt", "New", "Downgrade", "Upgrade", "AdoptSame",
+        "UnadoptSame"]
     } else {
         &["CloneRoot", "CloneStored", "DropRoot", "DropRoot", "Store", "Take", "DropStored", "Adopt", "Unadopt", "AdoptSame",
         "UnadoptSame", "AdoptStore", "TakeUnadopt", "TakeUnadopt", "New"]
     };
     let wk: &[&str] = &["Downgrade", "Downgrade", "Upgrade", "UpgradeStored", "WeakClone", "WeakDrop", "StoreWeak", "TakeWeak"];
-    let tear: &[&str] = if order {
+    let tear: &[&str] = if stdp {
+        &["DropRoot", "DropRoot", "DropRoot", "DropStored", "WeakDrop", "Upgrade", "DropDetached", "DecStrong", "FromRaw"]
+    } else if order {
         &["DropRoot", "DropRoot", "DropRoot", "TakeUnadopt", "WeakDrop", "Upgrade"]
     } else {
         &["DropRoot", "DropRoot", "DropRoot", "DropStored", "TakeUnadopt", "WeakDrop", "Upgrade"]
@@ -1405,6 +1495,10 @@ fn drive_script(rng: &mut SmallRng, len: usize, nobj: u32, profile: &str, script
         let a = if n == 0 { 0 } else { rng.gen_range(1..=n) };
         let b = if n == 0 { 0 } else { rng.gen_range(1..=n) };
         let mut d = Script { op: "none".into(), x: 0, y: 0 };
+        if name == "New" && stdp {
+            let how = ["none", "none", "box", "from"][rng.gen_range(0..4)];
+            d = Script { op: how.into(), x: 0, y: 0 };
+        }
         if name == "New" && scripted < 2 && rng.gen_range(0..2) == 0 {
             // destructor script from the profile's menu; targets may be objects created later
             let menu: &[&str] = match profile {
@@ -1423,7 +1517,7 @@ fn drive_script(rng: &mut SmallRng, len: usize, nobj: u32, profile: &str, script
         }
         let op = Op { op: name.to_string(), a: if name == "New" { n + 1 } else { a }, b: match name {
             "New" | "CloneRoot" | "DropRoot" | "AdoptSame" | "UnadoptSame" | "Downgrade" | "Upgrade" | "WeakClone" | "WeakDrop"
-            | "TryUnwrap" | "GetMut" | "MakeMut" | "IntoRaw" | "FromRaw" | "IncStrong" | "DecStrong" | "DropDetached" => 0,
+            | "TryUnwrap" | "GetMut" | "MakeMut" | "IntoRaw" | "FromRaw" | "IncStrong" | "DecStrong" | "DropDetached" | "Misc" => 0,
             _ => b,
         }, d };
         if name == "MakeMut" && n >= nobj {
